@@ -118,6 +118,34 @@ func c09Check(cs c09Case) string {
 			return fmt.Sprintf("%q does not parse like %q:\n  got  %s\n  want %s", cs.A, cs.B, clip(ta, 400), clip(tb, 400))
 		}
 		return ""
+	case "verbatim-set":
+		// texts that differ only in white space and are nevertheless different programs (white space inside a string literal, a comment
+		// that ends at the line break or runs to the end): all parsed by this one process, in both orders, each must yield its own result
+		set := [][2]string{
+			{`"a b"`, `"a b"`}, {`"a  b"`, `"a  b"`}, {"\"a\tb\"", "\"a\\tb\""}, {`" a"`, `" a"`}, {`"a "`, `"a "`}, {`"a   b"`, `"a   b"`},
+			{".a # c\n| .b", "i:1"}, {".a # c | .b", `{"b":i:1}`}, {".a #c\n | .b", "i:1"}, {".a # c\t| .b", `{"b":i:1}`},
+			{`.a | "x # y"`, `"x # y"`}, {`.a | "x #  y"`, `"x #  y"`}, {"\"p\n q\"", "\"p\\n q\""}, {"\"p\n  q\"", "\"p\\n  q\""},
+		}
+		for _, order := range []bool{true, false} {
+			for k := range set {
+				it := set[k]
+				if !order {
+					it = set[len(set)-1-k]
+				}
+				p, err, pan := impl.Parse(it[0])
+				if err != nil || pan != nil {
+					return fmt.Sprintf("%q is rejected: %v %v", it[0], err, pan)
+				}
+				res, eerr, epan := impl.Eval(p, impl.Doc(fromJSONText(`{"a": {"b": 1}}`)))
+				if eerr != nil || epan != nil || len(res) != 1 {
+					return fmt.Sprintf("%q does not yield one result: %v %v", it[0], eerr, epan)
+				}
+				if got := impl.ToV(res[0]).String(); got != it[1] {
+					return fmt.Sprintf("%q yields %s, expected %s (parsed after the other members of the set)", it[0], got, it[1])
+				}
+			}
+		}
+		return ""
 	case "same-result":
 		// two spellings that differ in redundant brackets inside a string interpolation: the expression text is taken apart when it
 		// is evaluated, so they are compared by what they yield
@@ -286,7 +314,7 @@ var c09NoPostfix = map[string]bool{
 	`tz("UTC")[]`: true, `tz("UTC")["k"]`: true, `tz("UTC")[0].k`: true, `tz("UTC")[1:]`: true,
 }
 
-var c09Fillers = []string{" ", "\n", "  ", "\t", " # c\n", "\r\n", "\n\n"}
+var c09Fillers = []string{" ", "\n", "  ", "\t", " # c\n", "\r\n", "\n\n", " # 1) :] }\n", " # ([{\n"}
 
 func c09Run(c *fw.Ctx) error {
 	ops := c09Ops()
@@ -382,6 +410,7 @@ func c09Run(c *fw.Ctx) error {
 			do(c09Case{Kind: "postfix", A: term + post + " | length", B: "((" + term + ")" + post + ") | length"}, "postfix/"+term, 6e6+int64(ti*100+pi))
 		}
 	}
+	do(c09Case{Kind: "verbatim-set", A: "set"}, "verbatim-set", 8e6)
 	// string interpolation: redundant brackets inside any segment
 	segs := []string{".a", ".b[0]", ".c.d", "(.a)", "((.b[1]))", "(.a | length)", `(.c | .d)`, ".a + 1", `"n"`}
 	for _, s1 := range segs {
